@@ -3,6 +3,7 @@ import RactorModel.Lemmas.PgNotify
 import RactorModel.Lemmas.PgConcGlob
 import RactorModel.Lemmas.PgConcNotify
 import RactorModel.Lemmas.PgConcLin
+import RactorModel.Lemmas.PgConcLeak
 
 /-!
 # C11 — process groups reflect live membership and tell their monitors
@@ -627,6 +628,31 @@ theorem conc_every_change_recorded (g : Conc.G) (t : Conc.Tid) (k : Key) (x : Na
       (p.isJoin = true ↔ x ∈ membersOf (Conc.step g t).st k) ∧ p.to = recipients g.st k :=
   Conc.change_recorded g t k x hch
 
+/-- **No reverse-index leak under interleaving.** For every schedule: the reverse-index ENTRY of an actor
+whose exit has finished (or that was stopping from the start) exists only while some `monitor` /
+`monitor_scope` call naming it is between its `get_or_create_actor_relations` and the end of its re-check
+region — which removes it again; at rest no stopping actor has an entry. -/
+theorem conc_no_reverse_index_leak (ops : List Op) (calls : List Conc.Pc) (sched : List Conc.Tid) (a : Nat) :
+    let g := Conc.run (g0 ops calls) sched
+    (a ∈ g.st.dead → (Conc.phaseOf g a = .done ∨ Conc.phaseOf g a = .live) → (get g.st.rel a).isSome = true →
+      ∃ (i : Nat) (pc : Conc.Pc), g.thr[i]? = some pc ∧ Conc.holdsRel a pc) ∧
+    (Conc.atRest g → a ∈ g.st.dead → get g.st.rel a = none) := by
+  intro g
+  have hs := Conc.allInv_start (inv_run inv_init ops) calls
+  have h : Conc.NoLeak g a :=
+    Conc.noLeak_run hs.1 hs.2 (fun a => Conc.noLeak_start (inv_run inv_init ops) calls a) sched a
+  refine ⟨fun hd hp hsome => h ⟨hd, hp⟩ hsome, ?_⟩
+  intro hr hd
+  cases hg : get g.st.rel a with
+  | none => rfl
+  | some r =>
+    exfalso
+    have hp : Conc.phaseOf g a = .done ∨ Conc.phaseOf g a = .live := (hr.2.1 a).symm
+    obtain ⟨i, pc, hi, hq⟩ := h ⟨hd, hp⟩ (by unfold Conc.relSome; rw [hg]; rfl)
+    have hmem : pc ∈ g.thr := List.mem_of_getElem? hi
+    rw [hr.1 pc hmem] at hq
+    exact hq
+
 /-- non-vacuity: thread 0 joins actors 1 and 2 to a second group (1,1) while both exit and thread 1
 starts monitoring scope 1. Actor 1 passes the status re-check of the join (`joinOne`), THEN publishes
 `Stopping` and drains its reverse index (the accepted membership is among the drained keys), actor 2
@@ -701,3 +727,4 @@ end C11
 #print axioms C11.conc_notifications_exactly_once
 #print axioms C11.conc_every_change_recorded
 #print axioms C11.conc_inv
+#print axioms C11.conc_no_reverse_index_leak
